@@ -429,8 +429,15 @@ func c02PatchIdentity(o *oracleRun, r *rand.Rand, cs int64) {
 	}
 	pname := pickS(r, []string{"web", "not-important", "other"})
 	allowName, allowKind := r.Intn(2) == 0, r.Intn(2) == 0
-	res := fmt.Sprintf("apiVersion: %s\nkind: %s\nmetadata:\n  name: web\n  labels:\n    keep: \"012\"\nspec:\n  replicas: 1\n  serviceName: \"yes\"\n---\napiVersion: v1\nkind: ConfigMap\nmetadata:\n  name: bystander\ndata:\n  k: \"on\"\n", tk[1], tk[0])
+	// names that LOOK like numbers or booleans are strings all the same (written quoted in the input)
+	tname := pickS(r, []string{"web", "web", "123", "true", "1e3"})
+	res := fmt.Sprintf("apiVersion: %s\nkind: %s\nmetadata:\n  name: \"%s\"\n  labels:\n    keep: \"012\"\nspec:\n  replicas: 1\n  serviceName: \"yes\"\n---\napiVersion: v1\nkind: ConfigMap\nmetadata:\n  name: bystander\ndata:\n  k: \"on\"\n", tk[1], tk[0], tname)
 	patch := fmt.Sprintf("apiVersion: %s\nkind: %s\nmetadata:\n  name: %s\nspec:\n  replicas: 3\n", pk[1], pk[0], pname)
+	replaceMeta := r.Intn(3) == 0
+	if replaceMeta {
+		// the patch REPLACES the metadata mapping (its labels are the patch's business then; the identity is not)
+		patch = fmt.Sprintf("apiVersion: %s\nkind: %s\nmetadata:\n  $patch: replace\n  name: %s\n  labels:\n    keep: \"012\"\nspec:\n  replicas: 3\n", pk[1], pk[0], pname)
+	}
 	var opts []string
 	if allowName {
 		opts = append(opts, "allowNameChange: true")
@@ -438,7 +445,7 @@ func c02PatchIdentity(o *oracleRun, r *rand.Rand, cs int64) {
 	if allowKind {
 		opts = append(opts, "allowKindChange: true")
 	}
-	k := "resources:\n- res.yaml\npatches:\n- path: patch.yaml\n  target:\n    kind: " + tk[0] + "\n    name: web\n"
+	k := "resources:\n- res.yaml\npatches:\n- path: patch.yaml\n  target:\n    kind: " + tk[0] + "\n    name: \"" + tname + "\"\n"
 	if len(opts) > 0 {
 		k += "  options:\n    " + strings.Join(opts, "\n    ") + "\n"
 	}
@@ -447,7 +454,7 @@ func c02PatchIdentity(o *oracleRun, r *rand.Rand, cs int64) {
 	for p, c := range files {
 		fs.WriteFile(p, []byte(c))
 	}
-	in := map[string]interface{}{"scenario": "patch-identity", "allowNameChange": allowName, "allowKindChange": allowKind, "files": files}
+	in := map[string]interface{}{"scenario": "patch-identity", "allowNameChange": allowName, "allowKindChange": allowKind, "replaceMetadata": replaceMeta, "files": files}
 	out, err, pnc := safeBuild(func() (string, error) { return runBuild(fs, "/w", nil) })
 	if pnc != nil || err != nil {
 		o.note("patch-identity-"+errClass(err), in)
@@ -455,7 +462,7 @@ func c02PatchIdentity(o *oracleRun, r *rand.Rand, cs int64) {
 	}
 	o.note(fmt.Sprintf("patch-identity-ok-name=%v-kind=%v", allowName, allowKind), in)
 	docs, _ := parseDocs(out)
-	wantKind, wantName := tk[0], "web"
+	wantKind, wantName := tk[0], tname
 	if allowKind {
 		wantKind = pk[0]
 	}
@@ -472,6 +479,12 @@ func c02PatchIdentity(o *oracleRun, r *rand.Rand, cs int64) {
 			continue
 		}
 		found = true
+		if _, isStr := md["name"].(string); !isStr && d["kind"] == wantKind && !allowName && replaceMeta {
+			// recogniser of finding C02-K1: the name is put back over the PLAIN-styled scalar the patch left there; FieldSetter
+			// lets the new value inherit that style, so a name that looks like a number or a boolean is written unquoted
+			o.fail("restored-name-loses-string-type", fmt.Sprintf("the name %q of the patched resource comes out as %v (%T): restoring the identity after a patch that replaced the metadata re-types it", wantName, md["name"], md["name"]), cs, in, md["name"], wantName)
+			continue
+		}
 		if d["kind"] != wantKind || md["name"] != wantName {
 			o.fail("identity-changed-without-option", fmt.Sprintf("patched resource is %v/%v; with allowNameChange=%v allowKindChange=%v the directive targets identity fields so that it must be %s/%s",
 				d["kind"], md["name"], allowName, allowKind, wantKind, wantName), cs, in, fmt.Sprintf("%v/%v", d["kind"], md["name"]), wantKind+"/"+wantName)
